@@ -367,7 +367,8 @@ theorem view05Cell_rel {d d' : CDef} (h : RelDef d d') : view05Cell d = view05Ce
     all2_map_eq _ _ h.cables (fun _ _ => view05Cable_rel)]
 
 theorem view05Lib_rel {l l' : CLib} (h : RelLib l l') : view05Lib l = view05Lib l' := by
-  simp only [view05Lib, nameOf_of_sameOn KO kN_O _ _ h.data, identOf_of_sameOn KO kI_O _ _ h.data,
+  have he : extOf l'.data = extOf l.data := by simp only [extOf, h.data kEXT (by simp [KO])]
+  simp only [view05Lib, he, nameOf_of_sameOn KO kN_O _ _ h.data, identOf_of_sameOn KO kI_O _ _ h.data,
     all2_map_eq _ _ h.defs (fun _ _ => view05Cell_rel)]
 
 theorem view05_rel {n n' : CNetlist} (h : RelNet n n') : view05 n = view05 n' := by
